@@ -180,9 +180,12 @@ def gen_history(rng, mods):
     return ops
 
 
-def expected(mods, ops):
-    """-> dict module -> None (plain) | 'A' | 'B' | 'none-checker'; plus stats"""
+def expected(mods, ops, spy_imports=None):
+    """-> dict module -> None (plain) | 'A' | 'B' | 'none-checker'; plus stats.
+    spy_imports: a module that the spy typechecker module imports - it is first imported when the first
+    decorator of a spy-instrumented module is evaluated (after that module's own imports)"""
     imported = {}
+    spy_loaded = [False]
     hooks = []  # active hooks, most recent first: (h, names, checker)
     stats = {"after_uninstall": 0, "two_hooks": 0, "nested": 0}
     ever_uninstalled = [False]
@@ -214,6 +217,9 @@ def expected(mods, ops):
                 stats["nested"] += 1
             for dep in mods[cur]["deps"]:
                 do_import(dep, depth + 1)
+            if spy_imports and not spy_loaded[0] and imported[cur] in ("A", "B"):
+                spy_loaded[0] = True
+                do_import(spy_imports, depth + 1)
 
     for o in ops:
         if o["op"] == "install":
@@ -224,12 +230,22 @@ def expected(mods, ops):
             ever_uninstalled[0] = True
         elif o["op"] == "import":
             do_import(o["module"])
+        elif o["op"] in ("reimport", "edit_reimport"):
+            # the module object is dropped and imported again (its dependencies stay loaded)
+            m = o["module"]
+            if m in imported and mods[m]["kind"] != "ns":
+                imported[m] = verdict(m)
+                if spy_imports and not spy_loaded[0] and imported[m] in ("A", "B"):
+                    spy_loaded[0] = True
+                    do_import(spy_imports, 1)
         elif o["op"] == "with":
             hooks.insert(0, (o["h"], list(o["names"]), o["checker"]))
             for m in o["inside"]:
                 do_import(m)
             hooks[:] = [h for h in hooks if h[0] != o["h"]]
             ever_uninstalled[0] = True
+    if spy_imports and spy_imports in mods and spy_imports not in imported:
+        imported[spy_imports] = None  # imported at the very end by the observer, no hook active any more
     return imported, stats
 
 
